@@ -40,7 +40,7 @@ CHECKS = {
     'C04': dict(
         technique='property-based testing over query histories: permutation enumeration / sampled orders against a fresh-first baseline; Hypothesis operation sequences on one Project vs a new Project',
         category='exploration',
-        text='The oracle is supp itself on a fresh state: every read is first answered on a fresh analysis, then the same reads are asked on one analysis object in all permutations (small modules) or forward/reverse/inside-out/every-read-first/random orders, and lint()/location() must agree with the per-read answers; project-level request sequences are compared request by request with a new Project. Decides order-independence (memoisation transparency), which no single-order unit test can see.',
+        text='The oracle is supp itself on a fresh state: every read is first answered on a fresh analysis, then the same reads are asked on one analysis object in all permutations (small modules) or forward/reverse/inside-out/every-read-first/random orders, and lint()/location() must agree with the per-read answers; project-level request sequences (single requests and bursts over several positions of one line, over attribute/loop modules, a package with relative imports and a top-level script) are compared request by request with a new Project; on real files a sample of attribute accesses is evaluated front to back, back to front and first-on-fresh, and all must agree. Decides order-independence (memoisation transparency), which no single-order unit test can see.',
         design_ref='DESIGN.md section 4 (C04)',
         note='Says nothing about correctness of the baseline (C01-C03 do). Real files: baselines for a sample of reads (loop reads preferred); all reads compared across orders.'),
     'C08': dict(
@@ -88,9 +88,9 @@ CHECKS = {
     'C09': dict(
         technique='model-based / stateful property-based testing: exhaustive enumeration of short operation histories + Hypothesis RuleBasedStateMachine; reference = a freshly created Project on the same disk state',
         category='exploration',
-        text='Histories of rewrite / touch / create / request operations are applied to a long-lived Project (requests inside check_changes, as the server does); after every request the reply must equal that of a Project created at that moment. All histories up to length 3 (quick) / 4 (thorough) over a 13-symbol alphabet are enumerated; longer ones come from a rule-based state machine that shrinks whole sequences.',
+        text='Histories of rewrite / touch / create / request operations are applied to a long-lived Project (requests inside check_changes, as the server does); after every request the reply must equal that of a Project created at that moment. All histories up to length 3 over a reduced alphabet plus every request;edit;edit;request history (quick) / up to length 4 over the full alphabet of 14 edits and 16 requests (thorough) are enumerated; longer ones come from a rule-based state machine that shrinks whole sequences.',
         design_ref='DESIGN.md section 4 (C09)',
-        note='One fixed import graph (diamond + late-created module) whose module contents are functions of toggles; modification times from a harness counter via os.utime; order inside alternative lists normalised (C17).'),
+        note='One fixed import graph (diamond, a chain of length 3 below the requesting file, an import cycle, a relative-import package, late-created modules and package) whose module contents are functions of toggles; modification times from a harness counter via os.utime; order inside alternative lists normalised (C17).'),
     'C17': dict(
         technique='property-based testing across processes: generated and corpus requests with multi-alternative answers replayed in fresh interpreters under different PYTHONHASHSEED values and heap layouts; byte-identical serialisation oracle',
         category='exploration',
@@ -102,11 +102,11 @@ CHECKS = {
         category='exploration',
         text='Each generated operation sequence is sent through the real client to a real server process and evaluated in lockstep on an identical in-process Project; replies must be equal up to tuple->list, failures must surface on the client with the server-side message, and after every fault the next request must still be answered by the same live child. Payload sizes cross every msgpack length boundary up to 4 MiB.',
         design_ref='DESIGN.md section 4 (C15)',
-        note='One server per sequence; the mirror uses supp.server.Server.process in-process (dispatch semantics) - the transport, serialisation fallback and loop are what is under test; quick tier runs without Hypothesis shrinking (sequences are <= 12 steps).'),
+        note='One server per sequence; the expected outcome is computed by calling the Server methods directly on a Project the harness builds (neither Server.process nor Server.configure, both under test, are used by the mirror); fixed sequences around a request that keeps the server busy for 6-12 s run beside the state machines; quick tier runs without Hypothesis shrinking (sequences are <= 12 steps).'),
     'C16': dict(
-        technique='schedule exploration: harness-owned deterministic scheduler (sys.settrace line events as yield points, fake Thread/Lock/launch), exhaustive DFS with replay under a preemption bound + Hypothesis-generated schedules; fault injection with a real subprocess for close / disconnect / launch failure',
+        technique='schedule exploration: harness-owned deterministic scheduler (sys.settrace line events as yield points, fake Thread/Lock, Environment._run itself scheduled with only subprocess.Popen and multiprocessing.connection.Client replaced), exhaustive DFS with replay under a preemption bound + Hypothesis-generated schedules; fault injection with a real subprocess for close / disconnect / launch failure',
         category='exploration',
-        text='The schedule becomes a generated input: every interleaving with at most 2 (quick) / 3 (thorough) preemptions at source-line granularity of supp/remote.py is enumerated for every scenario of up to three threads doing prepare()/first calls (also after a completed prepare and across close + second session), checking one launch per session, no exception, every call answered with its own reply, no deadlock. Real-process runs decide the close / disconnect / launch-failure clauses.',
+        text='The schedule becomes a generated input: every interleaving with at most 2 (quick) / 3 (thorough) preemptions at source-line granularity of supp/remote.py is enumerated for every scenario of up to three threads doing prepare()/first calls (also after a completed prepare, across close + second session with and without a configured first session, and with close() racing prepare()), checking one launch per session, no exception, every call answered with its own reply, no deadlock. Real-process runs decide the close / disconnect / launch-failure clauses.',
         design_ref='DESIGN.md section 4 (C16)',
         note='Line granularity of remote.py only (no races inside multiprocessing.connection); the preemption-bounded part is exhaustive for its bound; liveness bounds of the real-process runs are 10-12 s.'),
 }
